@@ -47,6 +47,16 @@ pub use self::{
 pub use metrics::service::MetricsRegistries;
 pub use target_arch::{interval, sleep, spawn, Instant, Interval};
 
+/// Items an external verification harness needs in order to step the driver by hand.
+#[cfg(feature = "verif-hooks")]
+pub mod verif_hooks {
+    pub use crate::cmd::{LocalSwarmCmd, NetworkSwarmCmd};
+    pub use crate::driver::verif_hooks::set_store_overrides;
+    pub use crate::record_store::{ClientRecordStore, NodeRecordStoreConfig};
+    pub use crate::record_store_api::UnifiedRecordStore;
+    pub use crate::replication_fetcher::verif_hooks::VerifFetcher;
+}
+
 use self::{cmd::NetworkSwarmCmd, error::Result};
 use ant_evm::{PaymentQuote, QuotingMetrics};
 use ant_protocol::{
